@@ -20,7 +20,7 @@ func init() {
 
 func TestC02_ChainsEnum(t *testing.T) {
 	c := harness.New(t, "C02", "chains-enum",
-		"every @if chain shape with 0..3 @elseif, with/without @else, over all truthiness vectors (true / false / failing condition per branch), each body a unique marker, at top level, inside an @each pass and inside another branch, with text before/between/after, and the same chain written as nested ternaries (printed, and as the condition of an @if); expected: marker of the first truthy branch, @else marker or nothing; a failing condition at or before the chosen branch is an error, behind it it must not surface. Empty bodies are their own shape. Non-trivial: chosen branch index >= 1, or a failing condition behind the chosen branch, or nesting. Distinct by construction.")
+		"every @if chain shape with 0..3 @elseif, with/without @else, over all truthiness vectors (true / false / failing condition per branch), each body a unique marker, at top level, inside an @each pass and inside another branch, with text before/between/after, and the same chain written as nested ternaries (printed, and as the condition of an @if), and with the conditions bound at template level to values of every type and truthiness; expected: marker of the first truthy branch, @else marker or nothing; a failing condition at or before the chosen branch is an error, behind it it must not surface. Empty bodies are their own shape. Non-trivial: chosen branch index >= 1, or a failing condition behind the chosen branch, or nesting. Distinct by construction.")
 	defer c.Finish()
 	in := interp()
 	idx := 0
@@ -32,7 +32,7 @@ func TestC02_ChainsEnum(t *testing.T) {
 		}
 		for code := 0; code < total; code++ {
 			for _, hasElse := range []bool{false, true} {
-				for _, ctx := range []string{"top", "each", "branch", "empty-bodies", "ternary", "ternary-in-if"} {
+				for _, ctx := range []string{"top", "each", "branch", "empty-bodies", "ternary", "ternary-in-if", "assigned"} {
 					idx++
 					if !harness.Mine(idx) {
 						continue
@@ -80,6 +80,35 @@ func TestC02_ChainsEnum(t *testing.T) {
 					for b := nb - 1; b >= 0; b-- {
 						tern = tw.Tern(cloneExpr(st.Branches[b].Cond), tw.Str(fmt.Sprintf("[b%d]", b)), tern)
 					}
+					if ctx == "assigned" {
+						// the conditions are names bound at template level just before the chain (no data at
+						// all), to values of every type and truthiness: false / true stand for any of them
+						falsy := []*tw.Expr{tw.Bool(false), intLit(0), tw.Str(""), floatLit(0), tw.Nil()}
+						truthy := []*tw.Expr{tw.Bool(true), intLit(1), tw.Str("a"), floatLit(2.5), tw.Arr(intLit(0)), tw.Obj(nil, nil)}
+						ok := true
+						at := &tw.Stmt{Kind: tw.SIf, HasElse: hasElse, Else: st.Else}
+						for b, br := range st.Branches {
+							name := fmt.Sprintf("c%d", b)
+							var v *tw.Expr
+							switch {
+							case br.Cond.Kind == tw.EBool && br.Cond.Bool:
+								v = truthy[(code+b+nb)%len(truthy)]
+							case br.Cond.Kind == tw.EBool:
+								v = falsy[(code+b+nb)%len(falsy)]
+							default:
+								ok = false
+							}
+							if !ok {
+								break
+							}
+							prog = append(prog, tw.Assign(name, v))
+							at.Branches = append(at.Branches, tw.Branch{Cond: tw.Var(name), Body: br.Body})
+						}
+						if !ok {
+							continue
+						}
+						prog = append(append([]*tw.Stmt{tw.Text("pre ")}, prog...), at, tw.Text(" post"))
+					}
 					switch ctx {
 					case "ternary":
 						prog = []*tw.Stmt{tw.Text("pre "), tw.Print(tern), tw.Text(" post")}
@@ -110,7 +139,7 @@ func TestC02_ChainsEnum(t *testing.T) {
 			}
 		}
 	}
-	c.ExhaustivePart("all chain shapes with 0..3 @elseif x {false,true,failing}^branches x else/no else x 6 contexts")
+	c.ExhaustivePart("all chain shapes with 0..3 @elseif x {false,true,failing}^branches x else/no else x 7 contexts")
 }
 
 func TestC02_TruthinessTable(t *testing.T) {
